@@ -362,6 +362,10 @@ impl PoolImpl {
         let first_unpruned_slot = self.first_unpruned_slot();
         self.slot_states = self.slot_states.split_off(&first_unpruned_slot);
         self.parent_ready_tracker.prune(first_unpruned_slot);
+        // certificates for pruned slots are no longer accepted,
+        // so nobody can be woken by a parent in one of them anymore
+        self.s2n_waiting_parent_cert
+            .retain(|(parent_slot, _), _| *parent_slot >= first_unpruned_slot);
         // NOTE: The finality tracker prunes its own state internally.
     }
 
